@@ -133,6 +133,49 @@ def gen_history(rng, shapes=None):
             return ops, tags
 
 
+def _gen_embed_eq(rng):
+    """Equalities added after embedding at least two new variables into a solved problem that already has
+    non-tight inequalities and an equality (the bookkeeping of the special equality row and of the slack
+    numbering in the incremental update_tableau): bounded variables, so that the first tree is a plain
+    solution node, then new bounded variables tied to the old ones by a new equality."""
+    U = rng.choice([12, 20, 30])
+    np_ = rng.choice([1, 1, 2])
+    dim0 = 1 + np_                       # x, then the parameters
+    n = 1                                # index of the first parameter
+    cons0 = []
+    order = rng.random() < 0.7           # inequality first, then the equality (the seeded shape), or the converse
+    ineq = ("G", U, [-1] + [0] * np_)    # x <= U  (not tight)
+    cx = 1 if rng.random() < 0.75 else rng.choice([2, 3])
+    eq = ("E", rng.randint(0, 3), [-cx, rng.choice([1, 1, 2])] + ([rng.choice([0, 1])] if np_ == 2 else []))   # cx*x == a*n (+ m) + c
+    cons0 = [ineq, eq] if order else [eq, ineq]
+    if rng.random() < 0.4:
+        cons0.insert(rng.randint(0, len(cons0)), ("G", rng.randint(0, 4), [1] + [rng.choice([0, 1])] * np_))   # another slack row
+    cut = rng.randint(0, 2); piv = rng.randint(3, 4)
+    ops = [["newcs", dim0, list(range(1, dim0)), cons0], ["ctl", cut], ["ctl", piv], ["solve", rng.choice(["solve", "sat", "sol", "opt"])]]
+    k = 2
+    if rng.random() < 0.5:
+        ops.append(["dims", k, 0])
+    else:
+        ops += [["dims", 1, 0], ["dims", 1, 0]]
+    dim = dim0 + k
+    y, z = dim0, dim0 + 1
+    def vec(d):
+        v = [0] * dim
+        for i, a in d.items(): v[i] = a
+        return v
+    later = [("G", U, vec({y: -1})), ("G", U, vec({z: -1}))]
+    a, b = rng.choice([1, 1, 2]), rng.choice([1, 2, 2, 3])
+    later.append(("E", rng.choice([0, 0, 1]), vec({y: a, z: b, 0: -1})))          # a*y + b*z (+c) == x
+    if rng.random() < 0.3:
+        later.append(("E", 0, vec({y: 1, z: -1, n: rng.choice([0, 0, -1])})) if rng.random() < 0.5 else ("G", 0, vec({y: 1, z: -1})))
+    if rng.random() < 0.5:
+        ops.append(["cons", later])
+    else:
+        ops += [["con", c] for c in later]
+    ops.append(["solve", rng.choice(["solve", "sat", "sol", "opt"])])
+    return ops, {"shape": "embedeq", "cut": cut, "piv": piv}
+
+
 def _gen_history(rng, shapes=None):
     nv = rng.choice([1, 1, 2, 2, 2, 3])
     np_ = rng.choice([0, 1, 1, 1, 2, 2])
@@ -141,10 +184,12 @@ def _gen_history(rng, shapes=None):
     nc = rng.randint(1, 5)
     cons = [rand_con(rng, dim) for _ in range(nc)]
     cut = rng.randint(0, 2); piv = rng.randint(3, 4)
-    shape = rng.choices(["fresh", "addcon", "adddims", "addpar", "mixed"], weights=[40, 22, 14, 12, 12])[0]
+    shape = rng.choices(["fresh", "addcon", "adddims", "addpar", "mixed", "embedeq"], weights=[38, 20, 13, 11, 10, 8])[0]
     if shapes:
         shape = rng.choice(shapes)
     use_big = bool(params) and rng.random() < 0.22
+    if shape == "embedeq":
+        return _gen_embed_eq(rng)
     ops = []; tags = {"shape": shape, "cut": cut, "piv": piv}
     # construction route
     if rng.random() < 0.5:
